@@ -68,7 +68,8 @@ type crashPoint struct {
 	Node  uint64 `json:"node"`
 	Count int    `json:"durable_write"` // crash at this durable write of the node, counted from the first write of the history (0 = none)
 	After bool   `json:"after"`
-	AtEnd bool   `json:"at_end"` // crash at quiescence after the whole history
+	AtEnd bool   `json:"at_end"`                // crash at quiescence after the whole history
+	Fail  bool   `json:"write_fails,omitempty"` // instead of a crash: this durable write fails (the store refuses it, nothing is written); whatever the node does then, it restarts afterwards
 }
 
 type caseT struct {
@@ -98,6 +99,8 @@ func (c caseT) String() string {
 	switch {
 	case c.Crash.AtEnd:
 		s += fmt.Sprintf(" crash n%d after the history", c.Crash.Node)
+	case c.Crash.Count > 0 && c.Crash.Fail:
+		s += fmt.Sprintf(" n%d's durable write #%d fails (store refuses), then n%d restarts", c.Crash.Node, c.Crash.Count, c.Crash.Node)
 	case c.Crash.Count > 0:
 		ph := "before"
 		if c.Crash.After {
@@ -141,7 +144,9 @@ func runCase(c caseT) (durable int, key, desc string) {
 		target = 1
 	}
 	base := w.Durable[target]
-	if c.Crash.Count > 0 {
+	if c.Crash.Count > 0 && c.Crash.Fail {
+		w.ArmFail(target, c.Crash.Count)
+	} else if c.Crash.Count > 0 {
 		w.ArmCrash(target, c.Crash.Count, c.Crash.After)
 	}
 	// reference states after each prefix
@@ -190,12 +195,18 @@ func runCase(c caseT) (durable int, key, desc string) {
 		default:
 		}
 		pos++
+		if c.Crash.Fail && len(w.Violations) > 0 && w.Violations[0].Key == "fatal" && !w.Nodes[target-1].Crashed {
+			// the store refused a write and the process ended itself (log.Fatal): a crash the code chose - the right
+			// reaction; what counts is what was acknowledged before and what is there after the restart
+			w.Violations = nil
+			w.Crash(target)
+		}
 		if len(w.Violations) > 0 {
 			return w.Durable[target] - base, w.Violations[0].Key, fmt.Sprintf("%v: %s", c, w.Violations[0].Desc)
 		}
 	}
 	durable = w.Durable[target] - base
-	if c.Crash.AtEnd && !w.Nodes[target-1].Crashed {
+	if (c.Crash.AtEnd || c.Crash.Fail) && !w.Nodes[target-1].Crashed {
 		w.Crash(target)
 	}
 	w.Disarm(0)
@@ -353,7 +364,7 @@ func main() {
 					report(base, k, desc)
 					var cps []crashPoint
 					for j := 1; j <= d && !replicasOnly; j++ {
-						cps = append(cps, crashPoint{Node: t, Count: j}, crashPoint{Node: t, Count: j, After: true})
+						cps = append(cps, crashPoint{Node: t, Count: j}, crashPoint{Node: t, Count: j, After: true}, crashPoint{Node: t, Count: j, Fail: true})
 					}
 					cps = append(cps, crashPoint{Node: t, AtEnd: true})
 					for _, cp := range cps {
@@ -393,6 +404,7 @@ func main() {
 	run.RunPart("log-store-C06", os.Getenv("VERIF_BIN_C06"), c06Keys, "VERIF_PART_PHASES=^single-group$")
 	run.Assumptions = []string{
 		"a single Badger write batch / transaction is atomic and durable once Flush/Commit returns; torn writes inside Badger and over-sized batches split by Badger are out of scope",
+		"write faults: each durable write of the target may instead FAIL (the store returns an error and writes nothing); the node may die (log.Fatal is taken as a crash) or go on, and is restarted after the history either way",
 		"between two durable writes the durable state is constant, so crashing immediately before the next write dominates every earlier instant of the interval; both ends of every interval are enumerated",
 		"the replicated application is the real partition state machine wired to the RaftGroup exactly as partition.loadRaft does (Register*, Start); writes are proposed sequentially by one client on the leader",
 		"the snapshot offset is lowered to 0 so that a local snapshot+compaction is reachable after one entry",
@@ -403,7 +415,7 @@ func main() {
 		"states":                        cases,
 		"transitions":                   cases,
 		"traces_validated_against_impl": cases,
-		"rule":                          fmt.Sprintf("every history of 1..%d writes (5 operations, optional snapshot steps) on one replica and of 1..%d writes on three replicas x every crash point of the target replica: before and after each durable write the history makes it perform, and after the history; one evaluation = one complete run (boot, elect, history, crash, restart, fair suffix, compare); all (history, crash point) pairs are distinct", len1, len3),
+		"rule":                          fmt.Sprintf("every history of 1..%d writes (5 operations, optional snapshot steps) on one replica and of 1..%d writes on three replicas x every crash point of the target replica: before and after each durable write the history makes it perform, that write failing instead, and after the history; one evaluation = one complete run (boot, elect, history, crash, restart, fair suffix, compare); all (history, crash point) pairs are distinct", len1, len3),
 		"histories":                     hists,
 		"samples":                       []interface{}{caseT{Nodes: 1, History: []step{{Op: 0}, {Op: -1, Snapshot: true}, {Op: 2}}, Crash: crashPoint{Node: 1, Count: 3, After: true}}.String()},
 		"exhaustive":                    complete,
